@@ -16,7 +16,8 @@ Fixpoint den (x : src) : text :=
   match x with
   | SStr s => s                                   (* a literal is its characters *)
   | SFile r => read_text r                        (* a text file / program output is what a text-mode read gives *)
-  | SProg _ g _ ins => read_text (g (concat (map den ins)))   (* the program's output for the text on its stdin *)
+  | SProg _ g _ ins => read_text (g 0%nat (concat (map den ins)))   (* the program's output for the text on its stdin
+                                                                    (of its first run, if it differs from run to run) *)
   | SLines f _ _ _ u => concat (f (lines_lf (den u)))    (* a transformer works on the lines of the operand's text *)
   | SFilter f _ u => concat (f (lines_lf (den u)))
   | SRun g _ u => read_text (g (den u))           (* the program reads the text as a file, its output is read as a text file *)
@@ -31,6 +32,8 @@ Definition obs_ok (t : text) (o : obs) : bool :=
   | OFile (FText r) => text_eqb r t               (* the file holds exactly the characters of the text *)
   | OFile (FBytes _) => false                     (* ... not bytes that are no text at all *)
   | ODep _ => true
+  | OWritten (FText r) => text_eqb r t            (* write_to writes exactly the characters of the text *)
+  | OWritten (FBytes _) => false
   | OFrozen => true
   | OExc => false                                 (* consuming the text must not fail *)
   end.
@@ -42,6 +45,8 @@ Definition obs_eqb (a b : obs) : bool :=
   | OFile (FText r), OFile (FText r') => text_eqb r r'
   | OFile (FBytes r), OFile (FBytes r') => text_eqb r r'
   | ODep _, ODep _ => true        (* an internal hint, not part of the text: not compared *)
+  | OWritten (FText r), OWritten (FText r') => text_eqb r r'
+  | OWritten (FBytes r), OWritten (FBytes r') => text_eqb r r'
   | OFrozen, OFrozen => true
   | OExc, OExc => true
   | _, _ => false
@@ -80,17 +85,50 @@ Definition verdicts_agree (vs : list (option bool)) : bool :=
     captured from stdout/stderr through the descriptor ([PFd]) or through a file of its own ([PFile]),
     the program printing the text itself or copying it from its stdin ([sin]). *)
 Definition prog_kind (k : pkind) (sin : bool) (t : text) : src :=
-  if sin then SProg k g_cat cs0 [SStr t] else SProg k (g_const t) cs0 [].
+  if sin then SProg k (det g_cat) cs0 [SStr t] else SProg k (det (g_const t)) cs0 [].
 Definition kinds (k : pkind) (sin : bool) (t : text) : list src := [SStr t; SFile t; prog_kind k sin t].
 
 Definition kind_verdicts (k : pkind) (sin : bool) (b extra : N) (te ta : text) (tr : option trans) : list (option bool) :=
   flat_map (fun e => map (fun x => fst (m_eval b extra (MEquals e) (build x tr))) (kinds k sin ta)) (kinds k sin te).
+
+(** ** Sources whose program prints something different at every run
+    Before freezing such a source has no single text.  freeze() guarantees that the contents is generated once
+    and shared by all getters: every view taken AFTER the freeze shows one and the same text, whatever the order
+    of consumption (as_str, as_lines, as_file, write_to). *)
+Definition obs_text (o : obs) : option text :=
+  match o with
+  | OStr s => Some s
+  | OLines ls => Some (concat ls)
+  | OFile (FText r) => Some r
+  | OWritten (FText r) => Some r
+  | _ => None
+  end.
+Definition is_view (o : obs) : bool := match o with ODep _ | OFrozen => false | _ => true end.
+
+Fixpoint after_freeze (os : list obs) : list obs :=
+  match os with
+  | [] => []
+  | OFrozen :: os' => os'
+  | _ :: os' => after_freeze os'
+  end.
+
+Definition one_text_after_freeze (os : list obs) : bool :=
+  match filter is_view (after_freeze os) with
+  | [] => true
+  | o :: os' =>
+      match obs_text o with
+      | Some t => forallb (obs_ok t) (o :: os')
+      | None => false
+      end
+  end.
 
 (** ** Cases of the correspondence check *)
 Inductive case :=
 | CaseAccess (base : src) (t : option trans) (b : N) (accs : list access) (observed : list obs)
     (* the source [build base t] was created with mem_buff_size [b], accessed by [accs] in
        order; [observed] is what the real objects returned *)
+| CaseAccessND (base : src) (t : option trans) (b : N) (accs : list access) (observed : list obs)
+    (* the same for a source with a program that prints something different at every run *)
 | CaseVerdict (base : src) (t : option trans) (b extra : N) (m : smatcher) (observed : list (option bool))
     (* the real verdicts ([None] = raised) of the [variants] of [m], each applied to a fresh source *)
 | CaseKinds (k : pkind) (sin : bool) (te ta : text) (tr : option trans) (b extra : N) (observed : list (option bool)).
@@ -103,6 +141,10 @@ Definition check_case (c : case) : bool * bool :=
       let x := build base t in
       ( list_eqb obs_eqb (fst (run b accs x)) observed,
         Nat.eqb (length observed) (length accs) && forallb (obs_ok (den x)) observed )
+  | CaseAccessND base t b accs observed =>
+      let x := build base t in
+      ( list_eqb obs_eqb (fst (run b accs x)) observed,
+        Nat.eqb (length observed) (length accs) && one_text_after_freeze observed )
   | CaseVerdict base t b extra m observed =>
       let x := build base t in
       ( list_eqb obool_eqb (map (fun m' => fst (m_eval b extra m' x)) (variants m)) observed,
